@@ -1255,6 +1255,7 @@ const WORDS: &[&str] = &[
     "a: b", "a:b", "a :b", ":a", "a:", "- a", "-a", "? a", "?a", "a #b", "a#b", "#a", "&a", "*a", "!a", "|", ">", "|a", "%a", "@a", "`a", "a, b", "[a]", "{a}", "a]", "a}",
     "'", "\"", "a'b", "a\"b", "it's", "\\", "a\\nb", " a", "a ", " ", "  ", "a  b", "é", "ü x", "日本", "😀", "a\u{a0}b", "\u{85}", "\u{2028}", "\u{feff}x", "\t", "a\tb", "\u{7f}", "\u{1}", "\u{0}", "\u{1b}[0m",
     "a\nb", "a\n", "\n", "a\n\nb", "a\r\nb", "<<", "=", "a=b", "http://x.y/z?q=1#f", "key: value", "- item", "# comment", "a,b", "1,2",
+    "a \"b", "a 'b", "x \"y\" z", "a,\"b", "0 \"\"9", "a | b", "a > b", "a |", "a >-", "say \"hi\"", "don't 'quote",
 ];
 
 pub fn gen_string(r: &mut Rng) -> String {
@@ -1726,6 +1727,9 @@ fn feat_node(n: &PNode, parent_compact: bool, flow: bool, out: &mut Vec<&'static
             if !flow && (s.contains('[') || s.contains('{')) {
                 out.push("plain-flowind");
             }
+            if !flow && plain_inner_indicator(s) {
+                out.push("plain-quote-bar");
+            }
             if flow && s.starts_with(':') {
                 out.push("flow-colon-plain");
             }
@@ -1760,6 +1764,9 @@ fn feat_node(n: &PNode, parent_compact: bool, flow: bool, out: &mut Vec<&'static
                 if !(*f || flow) && *ks == KStyle::Plain && (k.contains('[') || k.contains('{')) {
                     out.push("plain-flowind");
                 }
+                if !(*f || flow) && *ks == KStyle::Plain && plain_inner_indicator(k) {
+                    out.push("plain-quote-bar");
+                }
                 if (*f || flow) && *ks == KStyle::Plain && k.starts_with(':') {
                     out.push("flow-colon-plain");
                 }
@@ -1778,6 +1785,13 @@ fn feat_node(n: &PNode, parent_compact: bool, flow: bool, out: &mut Vec<&'static
 }
 
 /// Does the node's rendering span several lines?
+/// A quote, `|` or `>` inside a block-context plain scalar right after a character that is not
+/// alphanumeric (space, comma, …): a position where a validator could take it for a node start.
+fn plain_inner_indicator(s: &str) -> bool {
+    let cs: Vec<char> = s.chars().collect();
+    (1..cs.len()).any(|i| matches!(cs[i], '"' | '\'' | '|' | '>') && !cs[i - 1].is_alphanumeric())
+}
+
 fn multiline(n: &PNode) -> bool {
     match strip_anchor(n) {
         PNode::Str(_, SStyle::Literal { .. }) | PNode::Str(_, SStyle::Folded { .. }) => true,
